@@ -15,7 +15,21 @@ REAL_DUMP = BaseModel.model_dump
 
 
 class LiteValidationError(ValueError):
-    pass
+    """internal carrier: (loc, message, input); converted to the real pydantic ValidationError before it leaves"""
+    def __init__(self, msg, loc=(), value=None):
+        super().__init__(msg)
+        self.loc, self.value = loc, value
+
+
+def _real_validation_error(cls, e):
+    """the exception user code sees is pydantic's own ValidationError (repository code may catch it by class and read
+    e.errors()): field validators report loc=(field,), `mode="after"` model validators loc=() - as pydantic does"""
+    from pydantic_core import ValidationError, InitErrorDetails
+    try:
+        return ValidationError.from_exception_data(cls.__name__, [InitErrorDetails(
+            type="value_error", loc=tuple(e.loc), input="<input>", ctx={"error": ValueError(str(e))})])
+    except Exception:
+        return e
 
 
 def _is_float_ann(ann):
@@ -51,9 +65,16 @@ def lite_init(self, **data):
     m = cls.model_construct(**_coerce(cls, data))
     for a in ("__dict__", "__pydantic_fields_set__", "__pydantic_extra__", "__pydantic_private__"):
         object.__setattr__(self, a, getattr(m, a))
+    try:
+        _validate(self, cls)
+    except LiteValidationError as e:
+        raise _real_validation_error(cls, e) from None
+
+
+def _validate(self, cls):
     missing = [n for n, f in cls.model_fields.items() if f.is_required() and n not in self.__dict__]
     if missing:
-        raise LiteValidationError(f"missing fields {missing}")
+        raise LiteValidationError(f"missing fields {missing}", loc=(missing[0],))
     dec = cls.__pydantic_decorators__
     for name, f in cls.model_fields.items():          # conlist(min_length, max_length): annotated-types Len
         for md in f.metadata:
@@ -61,19 +82,24 @@ def lite_init(self, **data):
             if (lo is not None or hi is not None) and name in self.__dict__ and self.__dict__[name] is not None:
                 n = len(self.__dict__[name])
                 if (lo is not None and n < lo) or (hi is not None and n > hi):
-                    raise LiteValidationError(f"{name}: length {n} outside [{lo}, {hi}]")
-    try:
-        for name in cls.model_fields:
-            for vname, d in dec.field_validators.items():
-                if name in d.info.fields and name in self.__dict__:
+                    raise LiteValidationError(f"{name}: length {n} outside [{lo}, {hi}]", loc=(name,))
+    for name in cls.model_fields:
+        for vname, d in dec.field_validators.items():
+            if name in d.info.fields and name in self.__dict__:
+                try:
                     self.__dict__[name] = getattr(cls, vname)(self.__dict__[name])
-        for vname, d in dec.model_validators.items():
-            if d.info.mode == "after":
+                except LiteValidationError:
+                    raise
+                except ValueError as e:
+                    raise LiteValidationError(str(e), loc=(name,)) from None
+    for vname, d in dec.model_validators.items():
+        if d.info.mode == "after":
+            try:
                 getattr(self, vname)()
-    except LiteValidationError:
-        raise
-    except ValueError as e:
-        raise LiteValidationError(str(e)) from None
+            except LiteValidationError:
+                raise
+            except ValueError as e:
+                raise LiteValidationError(str(e), loc=()) from None
 
 
 def lite_dump(self, **k):
